@@ -7,6 +7,7 @@
   TLC  <Spec>_paths   : all behaviours of the bounded model, replayed on the real code (spec => code)
 """
 import json
+import threading
 import time
 import os
 import re
@@ -227,8 +228,18 @@ def _abs_cfg(spec, wd):
             continue
         in_inv = False
         out.append(ln)
-    with open(os.path.join(wd, dst), "w") as f:
-        f.write("\n".join(out) + "\n")
+    text = "\n".join(out) + "\n"
+    path = os.path.join(wd, dst)
+    try:
+        if open(path).read() == text:
+            return dst
+    except OSError:
+        pass
+    # several chunks are validated in parallel: never let one of them see a half-written file
+    tmp = "%s.%d.%d.tmp" % (path, os.getpid(), threading.get_ident())
+    with open(tmp, "w") as f:
+        f.write(text)
+    os.replace(tmp, path)
     return dst
 
 
